@@ -111,10 +111,12 @@ impl StateMachine<'_> {
 
     #[inline]
     fn test_diff_header_plus_line(&self) -> bool {
-        (matches!(self.state, State::DiffHeader(_)) || self.source == Source::DiffUnified)
-            && (self.line.starts_with("+++ ")
-                || self.line.starts_with("rename to ")
-                || self.line.starts_with("copy to "))
+        // The '+++ ' line directly follows the '--- ' line, which has set the DiffHeader state
+        // for `diff -u` output too: inside a hunk '+++ x' is the added line '++ x'.
+        (matches!(self.state, State::DiffHeader(_)) && self.line.starts_with("+++ "))
+            || ((matches!(self.state, State::DiffHeader(_))
+                || self.source == Source::DiffUnified)
+                && (self.line.starts_with("rename to ") || self.line.starts_with("copy to ")))
     }
 
     /// Check for and handle the "+++ filename ..." line.
